@@ -96,8 +96,9 @@ def _case(rng, malformed):
         key = rng.choice(KEYS[:nk])
         if odd and rng.random() < 0.4:
             key = rng.choice(["k90", "k91", "k92", "k93"])
+        isnil = rng.random() < 0.12          # nil is a value like any other
         if r < 0.28:
-            calls.append({"op": "set", "key": key, "val": rng.randrange(100), "draw": _draw(rng)})
+            calls.append({"op": "set", "key": key, "val": rng.randrange(100), "nil": isnil, "draw": _draw(rng)})
         elif r < 0.38:
             e = rng.choice([2, 3, 7, 20, 21, 40, 310]) * S
             if malformed and rng.random() < 0.3:
@@ -108,7 +109,7 @@ def _case(rng, malformed):
         elif r < 0.62:
             calls.append({"op": "del", "key": key})
         elif r < 0.75:
-            calls.append({"op": "take", "key": key, "val": rng.randrange(100), "fail": rng.random() < 0.35, "draw": _draw(rng)})
+            calls.append({"op": "take", "key": key, "val": rng.randrange(100), "nil": isnil, "fail": rng.random() < 0.35, "draw": _draw(rng)})
         else:
             n = rng.choice([1, 1, 2, max(1, esec * 95 // 100 - 1), esec, esec * 105 // 100 + 1, max(1, esec // 2)])
             n = min(n, budget)
@@ -209,7 +210,10 @@ def _auth(rng):
         toks = [store.get(a, "t0") if rng.random() < 0.6 else rng.choice(toks_all) for _ in range(n)]
         if rng.random() < 0.7:
             ops.append({"op": "expire", "app": a})
-        ops.append({"op": "burst", "app": a, "tokens": toks})
+        b = {"op": "burst", "app": a, "tokens": toks}
+        if rng.random() < 0.3:      # the leader's context expires during the slow lookup
+            b["ctx_ms"] = [rng.choice([15, 25])] + [0] * (n - 1)
+        ops.append(b)
         if rng.random() < 0.4:
             ops.append({"op": "burst", "app": a, "tokens": toks[:2] + ["t3"]})
     for a in apps:   # after recovery the real token is required again
@@ -335,6 +339,26 @@ def _take_recency_fixed():
     return out
 
 
+def _nil_fixed():
+    """nil values are values: Set(k, nil) then Get(k) = (nil, true); a fetch that succeeds with nil is cached (the next
+    Take does not fetch); reading a nil entry refreshes its LRU position"""
+    D = 2 ** 62
+    a = [{"op": "set", "key": "k0", "val": 0, "nil": True, "draw": D}, {"op": "get", "key": "k0"},
+         {"op": "take", "key": "k0", "val": 5, "fail": False, "draw": D},                       # hit: nil, no fetch
+         {"op": "take", "key": "k1", "val": 0, "nil": True, "fail": False, "draw": D},          # miss: fetch gives nil, cached
+         {"op": "take", "key": "k1", "val": 6, "fail": False, "draw": D}, {"op": "get", "key": "k1"},
+         {"op": "setx", "key": "k2", "val": 0, "nil": True, "expire": 5 * S, "draw": D}, {"op": "get", "key": "k2"}]
+    a += [{"op": "tick"}] * 6 + [{"op": "get", "key": "k2"}, {"op": "get", "key": "k0"}]
+    b = [{"op": "set", "key": "k0", "val": 0, "nil": True, "draw": D}, {"op": "set", "key": "k1", "val": 1, "draw": D},
+         {"op": "get", "key": "k0"},                                                            # nil read refreshes k0
+         {"op": "set", "key": "k2", "val": 2, "draw": D},                                       # evicts k1
+         {"op": "get", "key": "k0"}, {"op": "get", "key": "k1"},
+         {"op": "take", "key": "k0", "val": 9, "fail": False, "draw": D},                       # nil hit refreshes k0 again
+         {"op": "set", "key": "k3", "val": 3, "draw": D}, {"op": "get", "key": "k0"}, {"op": "get", "key": "k2"}]
+    return [{"kind": "cache", "expire": 50 * S, "limit": 0, "phase": 1, "calls": a},
+            {"kind": "cache", "expire": 50 * S, "limit": 2, "phase": 1, "calls": b}]
+
+
 def _resets(seq, phase, draws=None):
     """seq = [(ticks to wait before, expiry in s), ...] of SetWithExpire calls on one key, then ticks past the window
     of the LAST one; every tick is observed, so the entry must leave within [95%,105%] of its last Set and not before"""
@@ -369,6 +393,22 @@ def _mixed_reset(rng):
     if rng.random() < 0.6:          # end on a short one
         seq[-1] = (seq[-1][0], rng.choice([5, 10, 30]))
     return _resets(seq, rng.randrange(300), [_draw(rng) for _ in seq])
+
+
+def _auth_ctx_fixed():
+    """the flight leader's own context deadline expires while the (slow) store lookup is under way, the follower has
+    none: the shared lookup must not fail because of it -- right token admitted, wrong token rejected, strict or not"""
+    out = []
+    for strict in (False, True):
+        ops = [{"op": "set", "app": "a0", "token": "t0"}, {"op": "set", "app": "a1", "token": "t1"},
+               {"op": "burst", "app": "a0", "tokens": ["t0", "t0", "t2"], "ctx_ms": [25, 0, 0]},
+               {"op": "call", "app": "a0", "token": "t0"}, {"op": "call", "app": "a0", "token": "t3"},
+               {"op": "burst", "app": "a1", "tokens": ["t3", "t1", "t1", "t0"], "ctx_ms": [20, 0, 40, 0]},
+               {"op": "call", "app": "a1", "token": "t1"},
+               {"op": "expire", "app": "a0"}, {"op": "burst", "app": "a0", "tokens": ["t1", "t0"], "ctx_ms": [20, 0]},
+               {"op": "call", "app": "a0", "token": "t0"}]
+        out.append({"kind": "auth", "strict": strict, "ops": ops})
+    return out
 
 
 def _auth_fixed():
@@ -452,7 +492,7 @@ def generate(rng, tier, n):
         cases += [_long(rng, 1), _long(rng, 3), _long(rng, 6)]
     nj = max(10, n // 12)
     na = max(10, n // 12)
-    cases += [_index_churn()] + _flight_fixed() + [_flight(rng) for _ in range(max(12, n // 15))] + _jitter_fixed() + _long_fixed() + _take_recency_fixed() + _mixed_fixed() + _auth_fixed()
+    cases += [_index_churn()] + _flight_fixed() + [_flight(rng) for _ in range(max(12, n // 15))] + _jitter_fixed() + _long_fixed() + _take_recency_fixed() + _nil_fixed() + _mixed_fixed() + _auth_fixed() + _auth_ctx_fixed()
     if tier == "thorough":
         cases += [_index_churn(second=True), _index_churn(keep=1040, churn=10017), _index_churn(keep=1003, churn=12000, second=True)]
     cases += [_jitter(rng) for _ in range(nj)]
@@ -495,7 +535,7 @@ def drive(cases, tier):
 
 def search(rng, problems):
     """long expiries first (fixed), then re-set at chosen wheel phases (the D7 classes seen through the cache)"""
-    out = _flight_fixed() + [_flight(rng) for _ in range(40)] + _jitter_fixed() + _long_fixed() + _take_recency_fixed() + _mixed_fixed() + _auth_fixed() + [_mixed_reset(rng) for _ in range(40)]
+    out = _flight_fixed() + [_flight(rng) for _ in range(40)] + _jitter_fixed() + _long_fixed() + _take_recency_fixed() + _nil_fixed() + _mixed_fixed() + _auth_fixed() + _auth_ctx_fixed() + [_mixed_reset(rng) for _ in range(40)]
     for _ in range(150):
         e = rng.choice([20, 21, 19, 5, 60])
         phase = rng.randrange(300)
@@ -506,6 +546,13 @@ def search(rng, problems):
         calls += [{"op": "tick"} for _ in range(e * 105 // 100 + 2)]
         out.append({"kind": "cache", "expire": e * S, "limit": rng.choice([0, 2]), "phase": phase, "calls": calls})
     return out
+
+
+NILV = 200      # the model's stand-in for a nil value
+
+
+def _v(c):
+    return cnat(NILV if c.get("nil") else c["val"])
 
 
 def _k(s):
@@ -563,18 +610,18 @@ def encode(case, obs):
         if op in ("fill", "churn"):
             ops.append("%s %s %s %s %s" % ("XFill" if op == "fill" else "XChurn", cnat(c["from"]), cnat(c["n"]), cnat(c["val"]), cZ(o["jit"])))
         elif op == "set":
-            ops.append("XO (KSet %s %s %s)" % (_k(c["key"]), cnat(c["val"]), cZ(o["jit"])))
+            ops.append("XO (KSet %s %s %s)" % (_k(c["key"]), _v(c), cZ(o["jit"])))
         elif op == "setx":
-            ops.append("XO (KSetX %s %s %s %s)" % (_k(c["key"]), cnat(c["val"]), cZ(c["expire"]), cZ(o["jit"])))
+            ops.append("XO (KSetX %s %s %s %s)" % (_k(c["key"]), _v(c), cZ(c["expire"]), cZ(o["jit"])))
         elif op == "get":
             ops.append("XO (KGet %s)" % _k(c["key"]))
         elif op == "del":
             ops.append("XO (KDel %s)" % _k(c["key"]))
         elif op == "take":
-            ops.append("XO (KTake %s %s %s)" % (_k(c["key"]), copt(None if c.get("fail") else cnat(c["val"])), cZ(o["jit"])))
+            ops.append("XO (KTake %s %s %s)" % (_k(c["key"]), copt(None if c.get("fail") else _v(c)), cZ(o["jit"])))
         else:
             ops.append("XO KTick")
-        os_.append("mkObs %s %s %s %s %s %s %s" % (copt(cnat(o["val"]) if o["found"] else None), cbool(o["err"]), cbool(o["fetched"]),
+        os_.append("mkObs %s %s %s %s %s %s %s" % (copt(cnat(NILV if o.get("nil") else o["val"]) if o["found"] else None), cbool(o["err"]), cbool(o["fetched"]),
                                                    clist([_k(k) for k in o["keys"]]), clist([_k(k) for k in o.get("timers", [])]),
                                                    cnat(o.get("nkeys", len(o["keys"]))), cnat(o.get("ntimers", 0))))
     if len(os_) != len(case["calls"]):
@@ -637,6 +684,8 @@ def bucket(case, obs):
             out.append("auth:concurrent-callers(max %d)" % max(nb))
         if any(o["op"] == "expire" for o in case["ops"]):
             out.append("auth:burst-after-expiry")
+        if any(o.get("ctx_ms") for o in case["ops"]):
+            out.append("auth:leader-context-expires-during-lookup")
         out += ["auth:burst-lookups=%d" % n for n in sorted(set(obs.get("lookups", [])))]
         out += ["auth:code=%d" % c for c in sorted(set(obs.get("codes", [])))]
         return out
